@@ -14,10 +14,12 @@ package resolver
 
 import (
 	"context"
+	"encoding/json"
 	"fmt"
 	"math/rand"
 	"net"
 	"os"
+	"path/filepath"
 	"sort"
 	"strings"
 	"sync"
@@ -1101,58 +1103,11 @@ func TestVerifC01Lab(t *testing.T) {
 	topos := []string{"separate", "separate", "insecure-child", "wrongds", "shared-secure", "shared-secure", "shared-insecure", "shared-island", "nsec3", "nsec3-optout"}
 	tampers := []string{"none", "none", "strip-sigs", "alter-a", "expired", "signer-name", "bitflip", "labels", "forged-untrusted-key", "dnskey-extra-key",
 		"ds-swap", "ds-drop", "nsec-drop", "nxdomain-forged", "inject-foreign", "island-hijack", "no-anchor", "wildcard-replay", "wildcard-replay-decoy", "parent-denial-nxdomain", "parent-denial-nodata"}
-	// thorough tier: the full product topology x tamper script x question, instead of a sample of it
-	exhaustive := os.Getenv("VERIF_TIER") == "thorough"
-	nq := 8
-	if exhaustive {
-		n = len(topos) * len(tampers) * nq
-	}
-	for i := 0; i < n; i++ {
-		topo := topos[i%len(topos)]
-		tam := tampers[(i/len(topos)+i)%len(tampers)]
-		if i < len(topos) {
-			tam = "none"
-		}
-		forcedQ := -1
-		if exhaustive {
-			topo = topos[i%len(topos)]
-			tam = tampers[(i/len(topos))%len(tampers)]
-			forcedQ = (i / (len(topos) * len(tampers))) % nq
-		}
-		target := "zone.tld."
-		if topo == "shared-island" {
-			target = "sub.zone.tld."
-		}
-		if r.Intn(5) == 0 && topo != "shared-island" && tam != "ds-swap" && tam != "ds-drop" {
-			target = "tld."
-		}
-		if topo == "nsec3-optout" {
-			target = []string{"tld.", "tld.", "zone.tld.", "sec.tld."}[r.Intn(4)]
-		}
-		qs := queries(target)
-		q := qs[r.Intn(len(qs))]
-		if forcedQ >= 0 {
-			q = qs[forcedQ]
-		}
-		if tam == "nsec-drop" && forcedQ < 0 {
-			q = qs[2+r.Intn(2)]
-		}
-		if forcedQ < 0 && (tam == "wildcard-replay" || tam == "wildcard-replay-decoy") {
-			q = qs[6]
-		}
-		if forcedQ < 0 && tam == "parent-denial-nodata" {
-			q = qs[7]
-		}
-		if forcedQ < 0 && tam == "parent-denial-nxdomain" {
-			q = qs[0]
-		}
-		if forcedQ < 0 && (tam == "nxdomain-forged" || tam == "alter-a" || tam == "forged-untrusted-key" || tam == "dnskey-extra-key" || tam == "island-hijack" || tam == "ds-swap" || tam == "ds-drop" || tam == "inject-foreign" || tam == "expired") {
-			q = qs[0]
-		}
+	run := func(topo, tam, target string, q tq, origin string) {
 		lab, ok := vC01BuildLab(t, r, topo)
 		if !ok {
 			tr.emit(map[string]any{"k": "lab-infra", "inconclusive": true, "desc": "bind failure"})
-			continue
+			return
 		}
 		anchor := tam != "no-anchor"
 		if anchor && !lab.install(tam, target) {
@@ -1205,6 +1160,9 @@ func TestVerifC01Lab(t *testing.T) {
 				goFail = "AD set on a reply that is not authentic up to the trust anchor"
 			}
 			k := fmt.Sprintf("lab:%s:%s", topo, tam)
+			if origin != "" {
+				k = origin + ":" + k
+			}
 			if round > 0 && after == before {
 				k += ":cached"
 			}
@@ -1223,5 +1181,75 @@ func TestVerifC01Lab(t *testing.T) {
 			s.stop()
 		}
 		pipe.res.Stop()
+	}
+	// corpus first: the scenarios of every finding and every seeded change this check caught
+	if dir := os.Getenv("VERIF_CORPUS"); dir != "" {
+		files, _ := filepath.Glob(filepath.Join(dir, "lab-*.json"))
+		sort.Strings(files)
+		for _, fn := range files {
+			raw, err := os.ReadFile(fn)
+			if err != nil {
+				continue
+			}
+			var c struct {
+				Topo, Tamper, Target, Query string
+				Qtype                       uint16
+				Expect                      int
+			}
+			if json.Unmarshal(raw, &c) != nil || c.Topo == "" {
+				continue
+			}
+			run(c.Topo, c.Tamper, c.Target, tq{c.Query, c.Qtype, c.Expect}, "corpus:"+filepath.Base(fn))
+		}
+	}
+	// thorough tier: the full product topology x tamper script x question, instead of a sample of it
+	exhaustive := os.Getenv("VERIF_TIER") == "thorough"
+	nq := 8
+	if exhaustive {
+		n = len(topos) * len(tampers) * nq
+	}
+	for i := 0; i < n; i++ {
+		topo := topos[i%len(topos)]
+		tam := tampers[(i/len(topos)+i)%len(tampers)]
+		if i < len(topos) {
+			tam = "none"
+		}
+		forcedQ := -1
+		if exhaustive {
+			topo = topos[i%len(topos)]
+			tam = tampers[(i/len(topos))%len(tampers)]
+			forcedQ = (i / (len(topos) * len(tampers))) % nq
+		}
+		target := "zone.tld."
+		if topo == "shared-island" {
+			target = "sub.zone.tld."
+		}
+		if r.Intn(5) == 0 && topo != "shared-island" && tam != "ds-swap" && tam != "ds-drop" {
+			target = "tld."
+		}
+		if topo == "nsec3-optout" {
+			target = []string{"tld.", "tld.", "zone.tld.", "sec.tld."}[r.Intn(4)]
+		}
+		qs := queries(target)
+		q := qs[r.Intn(len(qs))]
+		if forcedQ >= 0 {
+			q = qs[forcedQ]
+		}
+		if tam == "nsec-drop" && forcedQ < 0 {
+			q = qs[2+r.Intn(2)]
+		}
+		if forcedQ < 0 && (tam == "wildcard-replay" || tam == "wildcard-replay-decoy") {
+			q = qs[6]
+		}
+		if forcedQ < 0 && tam == "parent-denial-nodata" {
+			q = qs[7]
+		}
+		if forcedQ < 0 && tam == "parent-denial-nxdomain" {
+			q = qs[0]
+		}
+		if forcedQ < 0 && (tam == "nxdomain-forged" || tam == "alter-a" || tam == "forged-untrusted-key" || tam == "dnskey-extra-key" || tam == "island-hijack" || tam == "ds-swap" || tam == "ds-drop" || tam == "inject-foreign" || tam == "expired") {
+			q = qs[0]
+		}
+		run(topo, tam, target, q, "")
 	}
 }
